@@ -14,7 +14,10 @@ fn trs(seed: u64, col_major: bool, scale: bool) -> Vec<f64> {
     let rot = [[(w * w + x * x - y * y - z * z) / n, 2.0 * (x * y - w * z) / n, 2.0 * (x * z + w * y) / n],
                [2.0 * (x * y + w * z) / n, (w * w - x * x + y * y - z * z) / n, 2.0 * (y * z - w * x) / n],
                [2.0 * (x * z - w * y) / n, 2.0 * (y * z + w * x) / n, (w * w - x * x - y * y + z * z) / n]];
-    let sc: Vec<f64> = (0..3).map(|_| if scale { [0.5, 1.0, 2.0, 3.0, -2.0][(nx() % 5) as usize] } else { 1.0 }).collect();
+    // one case in four mixes very large scales with ordinary ones (none negligibly small): a threshold made relative to
+    // the largest axis would then wrongly treat the ordinary axes as negligible
+    let wide = scale && nx() % 4 == 0;
+    let sc: Vec<f64> = (0..3).map(|_| if wide { [134217728.0, 2.0, 0.5, 3.0, 16384.0, -134217728.0][(nx() % 6) as usize] } else if scale { [0.5, 1.0, 2.0, 3.0, -2.0][(nx() % 5) as usize] } else { 1.0 }).collect();
     let tr: Vec<f64> = (0..3).map(|_| (nx() % 9) as f64 - 4.0).collect();
     let mut m = [[0.0f64; 4]; 4];
     for i in 0..3 { for j in 0..3 { m[i][j] = rot[i][j] * sc[j]; } m[i][3] = tr[i]; }
